@@ -32,25 +32,29 @@ Theorem C15_sends_never_block : forall (M : Type) (mempty : M) (mmerge : M -> M 
 Proof. exact (@sends_never_block). Qed.
 Print Assumptions C15_sends_never_block.
 
-(* Batches are numbered in the order of their Take.  put_stamp s i = Some e: batch i was sent back
-   (its dispatch returned) when e DrainStarts had happened; take_stamp s i = Some t: it got its slot
-   when t flushes had been emitted; flush_ids s f = the batches in the maps of the f-th emission.
+(* Batches are numbered in the order of their Take.  Ghost stamps of batch i: put_stamp s i = Some e
+   and put_emitted s i = Some pe: it was sent back (its dispatch returns after that) when e DrainStarts
+   and pe DrainEmits had happened; take_stamp s i = Some t: it got its slot when t flushes had been
+   emitted; flush_ids s f = the batches in the maps of the f-th emission.
    1. Every batch is in exactly one place, once: with its dispatcher (not yet merged), in a slot that is
       still inside the consolidator, or in one emitted flush.
    2. The batches that were sent back are exactly those in slots or flushes.
    3. Nothing is left behind: a batch sent back before the g-th DrainStart (e < g) is in a flush as
-      soon as g flushes have been emitted.
-   4. Which flush: the batch of flush f got its slot before that emission (t < f) and was sent back
-      after the start of flush f-1 (f <= e+1) -- so a dispatch that returned before flush f began and
-      was not flushed earlier is in flush f, and one concurrent with flush f is in f or f+1 (e <= f). *)
+      soon as g flushes have been emitted; more precisely
+   4. a batch is carried by the first emission after its Put (f = pe + 1), and
+   5. it got its slot before that emission (t < f) and was sent back after the start of flush f-1
+      (f <= e+1): a dispatch that returned before flush f began and was not flushed earlier is in flush
+      f; one concurrent with flush f is in f or in f+1 (e <= f); never in two, never in none. *)
 Theorem C15_flush_contains : forall (M : Type) (mempty : M) (mmerge : M -> M -> M) (k : nat) ls s,
   run (Consolidator.step mempty mmerge k) (Consolidator.init mempty k) ls = Some s ->
   List.NoDup (pending_ids s ++ ids_of (resident s) ++ flushed_ids s)
   /\ (forall i, i < next_id s <-> In i (pending_ids s ++ ids_of (resident s) ++ flushed_ids s))
   /\ (forall i, put_stamp s i <> None <-> In i (ids_of (resident s) ++ flushed_ids s))
   /\ (forall i e, put_stamp s i = Some e -> e < length (flushes s) -> In i (flushed_ids s))
+  /\ (forall i pe, put_emitted s i = Some pe -> pe < length (flushes s) -> In i (flush_ids s (S pe)))
   /\ (forall i f, In i (flush_ids s f) ->
-        exists e t, put_stamp s i = Some e /\ take_stamp s i = Some t /\ t < f /\ e <= f <= S e).
+        exists e pe t, put_stamp s i = Some e /\ put_emitted s i = Some pe /\ take_stamp s i = Some t
+                       /\ f = S pe /\ t < f /\ e <= f <= S e).
 Proof. exact (@flush_contains). Qed.
 Print Assumptions C15_flush_contains.
 
